@@ -514,6 +514,11 @@ fn sealed(job: &Value) {
             let want_cookie = *cname == "keyset";
             if base.auth.len() != pre.len() || base.enc.len() != inner.len() || base.cookie.is_some() != want_cookie {
                 baseline = format!("{cname}: unexpected baseline auth={} enc={} cookie={}", base.auth.len(), base.enc.len(), base.cookie.is_some());
+                // more fields reported as authenticated / decrypted than were put under the authenticator
+                if base.auth.len() > pre.len() || base.enc.len() > inner.len() {
+                    res["baseline_excess"] = json!({"ctx": cname, "authenticated": base.auth.len(), "sealed_in_front": pre.len(),
+                                                    "encrypted": base.enc.len(), "sealed_inside": inner.len()});
+                }
                 continue;
             }
             if !tamper {
